@@ -324,6 +324,8 @@ def build_lf(case):
     from cogent3 import make_aligned_seqs, make_tree
     fam = MODELS[case["model"]][0]
     tree = make_tree(case["tree"])
+    for other in case.get("after", []):        # models built earlier in the same process (another genetic code, another family):
+        make_model({"model": other})          # nothing they leave behind may change the model of this case
     model = make_model(case)
     lf = model.make_likelihood_function(tree, **(case.get("lfkw") or {}))
     rows = alignment_rows(case)
@@ -1084,6 +1086,19 @@ def gen_codon(tier, seed):
                     if i % 3 == 0:
                         case["updates"] = [[["omega", {}, 0.9], ["length", {"edge": edges[0]}, 0.5]]]
                     yield case
+    # a codon model of one genetic code built after a model of another code in the same process (and the other way round)
+    for model, after in (("GY94:gc2", ["GY94"]), ("GY94", ["GY94:gc2"]), ("MG94HKY:gc2", ["MG94HKY", "Y98"]), ("Y98", ["MG94HKY:gc2"])):
+        names = MODELS[model][3]
+        states = S.states_of(MODELS[model][0])
+        words = CODON_WORDS_GC2 if model.endswith(":gc2") else CODON_WORDS
+        for salt in range(2 if thorough else 1):
+            pi = PI_NUC[1 + salt % 2] if MODELS[model][2] == "nuc" else _pseudo_probs(states, salt + 3)
+            params = {p: [2.9, 0.6, 1.4][(n + salt) % 3] for n, p in enumerate(names)}
+            params["omega"] = 0.25
+            tree = S.parse_newick(trees[1])
+            la = {n["name"]: n["length"] for n in S.nodes(tree)[1:]}
+            yield {"model": model, "tree": trees[1], "pi": pi, "rules": _rules(la, params), "after": after,
+                   "aln": {"words": words, "stride": 5 if thorough else 11, "dup": 7}}
     # omega site classes (two bins with their own omega)
     for model in (["MG94HKY", "GY94"] if thorough else []):
         names = MODELS[model][3]
